@@ -34,6 +34,8 @@ impl ArrayImpl {
             })?),
             A::Float64(a) => A::new_float64(unary_op(a.as_ref(), |v| -v)),
             A::Decimal(a) => A::new_decimal(unary_op(a.as_ref(), |v| -v)),
+            // the untyped NULL constant: `x * -1` and `0 - x` are rewritten to `-x`
+            A::Null(_) => self.clone(),
             _ => return Err(ConvertError::NoUnaryOp("-".into(), self.type_string())),
         })
     }
